@@ -456,6 +456,13 @@ def run_check(ctx, modules, oracles, faults, explanation, extra_trusted=(), part
         try:
             res = execute(cfg)
         except Exception as e:
+            import traceback
+            frames = [f for f in traceback.extract_tb(e.__traceback__) if "/adaptive/" in f.filename]
+            if frames and "/adaptive/learner/" in frames[-1].filename:
+                # raised by the learner itself (e.g. LearnerND's recorded finding 'Point already in triangulation' when many
+                # points are outstanding): outside C05/C06/C19 (see assumptions), the learner's own properties report it
+                corr.count(f"skipped:learner_raised:{type(e).__name__}@{frames[-1].filename.split('/')[-1]}:{frames[-1].name}")
+                continue
             failures.append({"clause": "harness_or_runner_exception", "signature": f"{ctx.prop_id}.exception.{type(e).__name__}",
                              "detail": repr(e)[:300], "replay": cfg})
             continue
